@@ -24,7 +24,7 @@ var c08Lexemes = []string{
 	"a", " ", "{{", "}}", "1", "x", "@if(", ")", "@end", "@else", "@elseif(", "@each(", "@for(", "in", ";",
 	"=", "+", "-", "*", "/", "%", "==", "<", "!", "++", "--", "?", ":", ",", ".", "(", "[", "]", "{", "}",
 	`"s"`, `"`, "'", "true", "nil", "2.5", "{{--", "--}}", "@break", "@continue", "@breakIf(", "@continueIf(",
-	"@dump(", "@use(", "@reserve(", "@insert(", "@component(", "@slot", "@slot(", "@if", "\\", "\n", "^", "\xff", "\xa0", "\v",
+	"@dump(", "@use(", "@reserve(", "@insert(", "@component(", "@slot", "@slot(", "@if", "\\", "\n", "^", "\xff", "\xa0", "\v", "\x00",
 }
 
 // structural subset used for the longer sequences of the thorough tier
@@ -248,7 +248,6 @@ func init() {
 		},
 		Assume: []string{
 			"termination is decided by a deterministic fuel counter spliced into every loop and function of the instrumented build (2e6 ticks, confirmed at 2e7), not by a stopwatch",
-			"the NUL byte is outside the alphabet (the lexer uses it as its end-of-input sentinel)",
 			"must-reject obligations come from the construction of the annotated corpus (which construct a prefix was cut in), not from a second parser",
 		},
 		Run: c08Run,
